@@ -12,6 +12,7 @@ mod pdbtext;
 mod rng;
 mod st;
 mod c01;
+mod c02;
 mod c03;
 mod c05;
 mod c06;
@@ -121,6 +122,7 @@ fn gen(prop: &str, tier: &str, seed: u64) -> Vec<String> {
     let mut r = rng::Rng::new(seed, prop);
     match prop {
         "C01" => c01::gen(tier, &mut r),
+        "C02" => c02::gen(tier, &mut r),
         "C03" => c03::gen(tier, &mut r),
         "C05" => c05::gen(tier, &mut r),
         "C06" => c06::gen(tier, &mut r),
@@ -142,6 +144,7 @@ fn gen(prop: &str, tier: &str, seed: u64) -> Vec<String> {
 fn exec(prop: &str, case: &str) -> Exec {
     match prop {
         "C01" => c01::exec(case),
+        "C02" => c02::exec(case),
         "C03" => c03::exec(case),
         "C05" => c05::exec(case),
         "C06" => c06::exec(case),
